@@ -1,8 +1,9 @@
 import FitModel.Wire
+import FitModel.FitFormat
 import FitModel.Generated.WireConsts
 import Driver.Util
 /-! Driver handlers for the wire-level encoder/decoder families (syntax: see harness/wire.go). -/
--- @family encw Drv.hEncW
+-- @family encw Drv.hEncW'
 -- @family decw Drv.hDecW
 -- @family rtw Drv.hRtW
 namespace Drv
@@ -242,6 +243,46 @@ def kfRtW (args : List String) : String :=
   | none => "-"
   | some i =>
     if i.o.compress && !(i.files.all fun f => tsMonoB i.o.arch 0 f.2) then "KF-C01-ts" else "-"
+
+/-- C02 on the implementation: the bytes the real encoder wrote form a well-formed stream per the
+independent framing spec, one sequence per FIT value, and the header/CRC written back into the caller's
+FIT values are the ones on the wire. -/
+def propEncW (args : List String) (impl : String) : String :=
+  match parseRt args with
+  | none => "n/a"
+  | some i =>
+    if i.rejected.isSome then "n/a"
+    else if !optsOKB i.o || !(i.files.all fun f => fitOKB i.o f.1 f.2) then "n/a"
+    else
+      match (impl.splitOn " ").filter (· ≠ "") with
+      | [status, hx, wb] =>
+        if status != "ok" then s!"fail:encode-{status}" else
+        match unhex hx with
+        | none => "fail:answer"
+        | some bs =>
+          match Fit.FitFormat.parseStream bs with
+          | none => "fail:not-a-fit-stream"
+          | some seqs =>
+            if seqs.length != i.files.length then "fail:sequence-count"
+            else if !(seqs.all fun s => Fit.FitFormat.headerCrcOk bs s) then "fail:header-crc"
+            else if !(seqs.all fun s => Fit.FitFormat.fileCrcOk bs s) then "fail:file-crc"
+            else
+              let onWire := seqs.map fun s =>
+                s!"{s.header.size}.{s.header.protocolVersion}.{s.header.dataSize}.{s.header.crc.getD 0}.{s.crc}"
+              if "wb=" ++ ",".intercalate onWire != wb then "fail:writeback" else "ok"
+      | _ => "fail:answer"
+
+def kfEncW (args : List String) : String :=
+  match parseRt args with
+  | none => "-"
+  | some i => if i.files.any fun f => f.1.size == 12 then "KF-C02-legacy-crc" else "-"
+
+def hEncW' : Handler := fun r =>
+  match r.mode with
+  | .model => execEncW r.args
+  | .spec => "n/a"
+  | .prop => propEncW r.args r.impl
+  | .kf => kfEncW r.args
 
 def hRtW : Handler := fun r =>
   match r.mode with
